@@ -131,6 +131,13 @@ func (x *X) callValue(fr *Frame, st *State, fv SV, args []SV, sig *types.Signatu
 			}
 		}
 		x.vc.assume(mkImplies(mkNot(mkEq(r1, intLit(0))), mkOr(cls...)))
+		if kind == "pred" {
+			for _, nme := range x.sentinel.names {
+				if strings.HasSuffix(nme, "exec.ErrVerbose") {
+					x.vc.assume(mkNot(x.errorsIs(r1, T(SInt, sentName(nme)))))
+				}
+			}
+		}
 		x.enc.assumption("callbacks of protocol type (predOutcome/resultStatus, error) satisfy E1/E2 (every function of that type in package exec is verified against them)")
 	}
 	x.afterCallGhost(st, "param."+dynName(cc), sig, args, rets, nil)
@@ -696,7 +703,16 @@ func (x *X) havocLoc(st, pre *State, p *PtrV) {
 // afterCallGhost maintains the call-trace and pending-error ghost cells.
 func (x *X) afterCallGhost(st *State, callee string, sig *types.Signature, args, rets []SV, fn *ssa.Function) {
 	ck := x.callCountKey(callee)
-	st.mem[ck] = x.vc.define("ncalls", x.iadd(x.get(st, ck), x.ic(1)))
+	before := x.get(st, ck)
+	st.mem[ck] = x.vc.define("ncalls", x.iadd(before, x.ic(1)))
+	// results of the first call are kept separately
+	for i := 0; i < sig.Results().Len() && i < len(rets); i++ {
+		t := sig.Results().At(i).Type()
+		if rt, ok := rets[i].(Term); ok {
+			k := x.callTraceKey(callee, "first", fmt.Sprint(i), x.enc.sortOf(t), t)
+			st.mem[k] = x.vc.define("firstret", mkIte(mkEq(before, x.ic(0)), rt, x.get(st, k)))
+		}
+	}
 	if fn != nil {
 		for i, p := range fn.Params {
 			if i >= len(args) {
